@@ -63,7 +63,22 @@ fn library() -> HashMap<String, String> {
     st.insert("b".to_string(), "[top](a)\n\n# B\n\npara\n".to_string());
     st.insert("d/x".to_string(), "# X\n\n[up](../a)\n\ninline [a](../a) link\n".to_string());
     st.insert("r".to_string(), "# Root\n\n## Part\n\n[a](a)\n".to_string());
+    // dangling block references with long non-ASCII targets, shifted by 0-3 ASCII bytes so that any fixed byte
+    // position falls inside a multi-byte character for some of them (whatever handles the panic text of a
+    // request on them must cope with that)
+    st.insert("u".to_string(), nonascii_note());
     st
+}
+
+pub const NONASCII_TARGETS: usize = 8;
+
+fn nonascii_note() -> String {
+    let mut t = String::from("# Ü\n");
+    for i in 0..NONASCII_TARGETS {
+        let base = if i % 2 == 0 { "список-прочитанных-книг-за-прошлый-год-и-планы-на-следующий" } else { "日本語のノートの長い名前がここに入りますそしてまだ続きます" };
+        t.push_str(&format!("\n[ссылка]({}{})\n", "abc".chars().take(i / 2).collect::<String>(), base));
+    }
+    t
 }
 
 pub fn uri(k: &str) -> String {
@@ -90,6 +105,13 @@ pub fn request_classes() -> Vec<(String, String, Value)> {
             out.push((format!("completion/{}/{}", ul, pl), "textDocument/completion".into(), json!({"textDocument": td, "position": p})));
             out.push((format!("codeAction/{}/{}", ul, pl), "textDocument/codeAction".into(), json!({"textDocument": td, "range": {"start": p, "end": p}, "context": {"diagnostics": []}})));
         }
+    }
+    for i in 0..NONASCII_TARGETS {
+        let td = json!({"uri": uri("u")});
+        let p = json!({"line": 2 + 2 * i, "character": 12});
+        out.push((format!("rename-free/non-ascii-dangling/{}", i), "textDocument/rename".into(), json!({"textDocument": td, "position": p, "newName": "fresh"})));
+        out.push((format!("definition/non-ascii-dangling/{}", i), "textDocument/definition".into(), json!({"textDocument": td, "position": p})));
+        out.push((format!("codeAction/non-ascii-dangling/{}", i), "textDocument/codeAction".into(), json!({"textDocument": td, "range": {"start": p, "end": p}, "context": {"diagnostics": []}})));
     }
     out.push(("workspaceSymbol/empty".into(), "workspace/symbol".into(), json!({"query": ""})));
     out.push(("workspaceSymbol/query".into(), "workspace/symbol".into(), json!({"query": "sub"})));
@@ -131,7 +153,8 @@ pub fn check_request(label: &str, method: &str, params: &Value) -> Option<String
     let probe = s.request("textDocument/formatting", json!({"textDocument": {"uri": uri("b")}, "options": {"tabSize": 2, "insertSpaces": true}}), DEADLINE);
     let alive = probe.len() == 1 && probe[0]["result"][0]["newText"].as_str() == Some("# probe\n");
     // … and answers the other kinds of request exactly as a session that never saw the request does
-    let after = battery(&mut s);
+    // (not looked at when the request itself or the liveness probe already failed: one finding per class)
+    let after = if what.is_some() || !alive { vec![] } else { battery(&mut s) };
     let ended = s.finish();
     let isolated = {
         let base = BASELINE.get_or_init(|| {
@@ -141,7 +164,7 @@ pub fn check_request(label: &str, method: &str, params: &Value) -> Option<String
             b.finish();
             out
         });
-        base.iter().zip(after.iter()).find(|(b, a)| b != a).map(|(b, a)| format!("{}: a later request is answered differently than in a session without it: {} instead of {}", label, cut(a), cut(b)))
+        if after.is_empty() { None } else { base.iter().zip(after.iter()).find(|(b, a)| b != a) }.map(|(b, a)| format!("{}: a later request is answered differently than in a session without it: {} instead of {}", label, cut(a), cut(b)))
     };
     what.or(if !alive { Some(format!("{}: afterwards the server does not answer a formatting request correctly ({:?})", label, probe)) } else { None })
         .or(isolated)
@@ -210,7 +233,7 @@ pub fn run(ctx: &Ctx, model: &mut Model, rep: &mut Report) {
         idx.swap(i, r.below(i + 1));
     }
     // the known-finding classes are always exercised
-    let mut chosen: Vec<usize> = idx.iter().cloned().filter(|i| open.iter().any(|o| classes[*i].0.starts_with(o.as_str()))).collect();
+    let mut chosen: Vec<usize> = idx.iter().cloned().filter(|i| open.iter().any(|o| classes[*i].0.starts_with(o.as_str())) || classes[*i].0.starts_with("rename-free/non-ascii-dangling")).collect();
     for i in idx {
         if chosen.len() >= take.max(chosen.len()) {
             break;
@@ -230,6 +253,10 @@ pub fn run(ctx: &Ctx, model: &mut Model, rep: &mut Report) {
                 rep.count("attributed_to_known_request_class");
             } else {
                 rep.fail(json!({"kind": "request", "label": label, "method": method, "params": params, "what": what}));
+                if !ctx.thorough && rep.impl_failures.len() >= 8 {
+                    rep.count("stopped_early_after_8_failures");
+                    break;
+                }
             }
         }
     }
